@@ -539,7 +539,7 @@ pub fn execute(case: &Case, ctx: &mut Ctx) {
                 ctx.hit("probe.io.coarse_trace");
             }
             let mut rng = Rng::new(*reader_seed);
-            let ptc = pt::Case { locos: locos.clone(), as_consist: *as_consist, pdct: pdct.clone(), save_interval: *save_interval, ops: vec![], hash_seed: 0, shipped_walk: false, twin: false, nested_drift: false };
+            let ptc = pt::Case { locos: locos.clone(), as_consist: *as_consist, pdct: pdct.clone(), save_interval: *save_interval, ops: vec![], hash_seed: 0, shipped_walk: false, twin: false, nested_drift: false, late_units: false };
             let n = *n_steps + 1;
             let rating: f64 = locos.iter().map(|l| match &l.kind { pt::KindSpec::Conv { fc, .. } => fc.p_max, pt::KindSpec::Bel { res, edrv } => res.p_max.min(edrv.p_max), _ => 1e6 }).fold(f64::INFINITY, f64::min) * locos.len() as f64;
             let time: Vec<f64> = (0..n).map(|k| k as f64 * *dt).collect();
